@@ -15,6 +15,7 @@ import time
 
 from .common import clause, Fail, Skip, LABELS, variables_of, peval, cls_of, close
 from ..repo import import_qubovert
+from .c11 import preflight
 from .c11 import TYPES, SPIN_FN, MATRIX, FNS, _special_models, _random_models, _vars_for, _build, _init_state
 
 GENERIC = [1, -1, 2.5, -1.25, 0.75, -3.5, 1.625, -0.375, 2.125, -2.75, 0.5625, 3.25]
@@ -64,6 +65,9 @@ def _nt_repro(case):
 
 
 def _repro(case, delay):
+    pf = preflight()
+    if pf is not None:
+        return pf
     f = _fn(case)
     a = _triples(f(_build(case), **case["kw"]))
     # an unrelated call in between must not matter
@@ -162,6 +166,9 @@ def check_zero_mono(case):
     (0, 0)) with a supplied initial state: every result's value is <= the value of the initial state (oracle
     common.peval; tolerance 1e-9 relative), for all four functions, all model types, both visiting orders.
     Non-trivial: from the initial state some single flip lowers and some single flip raises the energy."""
+    pf = preflight()
+    if pf is not None:
+        return pf
     res = _fn(case)(_build(case), **case["kw"])
     e0 = peval(case["terms"], case["kw"]["initial_state"])
     for r in res:
@@ -254,6 +261,9 @@ def check_zero_exact(case):
     flip variable i iff the exact energy change of flipping it is negative" (energy changes by common.peval on exact
     dyadic coefficients). Cases where the reference meets an exactly-zero energy change are skipped (the property
     says 'negative'; ties are outside what is compared). Non-trivial: n >= 2 and the reference flips something."""
+    pf = preflight()
+    if pf is not None:
+        return pf
     terms = case["terms"]
     spin = SPIN_FN[case["fn"]]
     n = max(variables_of(terms)) + 1
@@ -367,6 +377,11 @@ def _gen_dist(ctx, in_order):
         dom = (1, -1) if spin else (0, 1)
         for Ts in ([1.0], [2.0, 0.7]) if rng.random() < 0.5 else ([0.8], [1.5, 1.5]):
             init = {v: rng.choice(dom) for v in vs}
+            if rng.random() < 0.6:
+                # start in a ground state: every single flip is then uphill or neutral
+                import itertools
+                init = min(({v: x for v, x in zip(vs, xs)} for xs in itertools.product(dom, repeat=len(vs))),
+                           key=lambda st: peval(terms, st))
             cases.append({"fn": fn, "type": tname, "terms": terms, "init": init, "schedule": list(Ts),
                           "in_order": in_order, "n": n_anneals, "seeds": seeds})
     for c in cases:
@@ -387,6 +402,9 @@ def _nt_dist(case):
 
 
 def _check_dist(case):
+    pf = preflight()
+    if pf is not None:
+        return pf
     terms = case["terms"]
     spin = SPIN_FN[case["fn"]]
     order = _vars_for(case["type"], terms)        # Matrix: 0..max_index (the visiting order); else any order
